@@ -40,16 +40,17 @@ const (
 var c12hpConnsNames = []string{"relayed-inbound", "relayed-outbound", "relayed-inbound+direct-outbound", "direct-inbound", "none", "relayed-inbound+relayed-outbound"}
 
 type c12hpInitCase struct {
-	Space    string      `json:"space"`
-	PsMask   int         `json:"peerstore_mask"` // bit i: psAlphabet[i] is in the peerstore for the remote
-	Conns    int         `json:"conns"`
-	DirectOK bool        `json:"direct_dial_ok"`
-	Script   []c12hpStep `json:"script"`
-	Listen   int         `json:"listen"`
-	Filter   int         `json:"filter"`
-	LateAt   int         `json:"late_inbound_direct_at,omitempty"`
-	Startup  int         `json:"startup_empty_polls,omitempty"` // listenAddrs() is empty for the first n polls of waitForPublicAddr
-	Notify   int         `json:"notify_conn,omitempty"`         // 0: call Service.DirectConnect; 1..4: deliver Connected(conn of that kind) instead
+	Space      string      `json:"space"`
+	PsMask     int         `json:"peerstore_mask"` // bit i: psAlphabet[i] is in the peerstore for the remote
+	Conns      int         `json:"conns"`
+	DirectOK   bool        `json:"direct_dial_ok"`
+	Script     []c12hpStep `json:"script"`
+	Listen     int         `json:"listen"`
+	Filter     int         `json:"filter"`
+	LateAt     int         `json:"late_inbound_direct_at,omitempty"`
+	Startup    int         `json:"startup_empty_polls,omitempty"` // listenAddrs() is empty for the first n polls of waitForPublicAddr
+	FailBlocks bool        `json:"failed_dial_blocks_until_deadline,omitempty"`
+	Notify     int         `json:"notify_conn,omitempty"` // 0: call Service.DirectConnect; 1..4: deliver Connected(conn of that kind) instead
 }
 
 var c12hpNotifyNames = []string{"", "relayed-inbound", "relayed-outbound", "direct-inbound", "direct-outbound"}
@@ -69,8 +70,8 @@ func (c *c12hpInitCase) describe(w *c12hpWorld) string {
 	if c.Notify != 0 {
 		how = "Connected(" + c12hpNotifyNames[c.Notify] + ")"
 	}
-	return fmt.Sprintf("%s; peerstore=%v conns=%s directDial=%v remote-script=%v listenAddrs=%s filter=%s late-inbound-direct-at=%d startup-empty-polls=%d",
-		how, ps, c12hpConnsNames[c.Conns], c.DirectOK, sc, c12hpListenNames[c.Listen], c12hpFilterNames[c.Filter], c.LateAt, c.Startup)
+	return fmt.Sprintf("%s; peerstore=%v conns=%s directDial=%v remote-script=%v listenAddrs=%s filter=%s late-inbound-direct-at=%d startup-empty-polls=%d failed-dial-blocks=%v",
+		how, ps, c12hpConnsNames[c.Conns], c.DirectOK, sc, c12hpListenNames[c.Listen], c12hpFilterNames[c.Filter], c.LateAt, c.Startup, c.FailBlocks)
 }
 
 func (c *c12hpInitCase) onlyRelayed() bool {
@@ -193,6 +194,7 @@ func c12hpRunInit(t *testing.T, w *c12hpWorld, c *c12hpInitCase) (o c12hpInitObs
 		}
 		h.punchOK = func(k int) bool { return step(k).ConnectOK }
 		h.lateAt = c.LateAt
+		h.failBlocks = c.FailBlocks
 		h.streamError = func(k int) error {
 			if step(k).Answer == c12hpAnsStreamErr {
 				return fmt.Errorf("protocols not supported: [%s]", Protocol)
@@ -214,10 +216,9 @@ func c12hpRunInit(t *testing.T, w *c12hpWorld, c *c12hpInitCase) (o c12hpInitObs
 			rec.mu.Lock()
 			rec.Answered = c12hpAnsNames[a]
 			rec.mu.Unlock()
-			if a <= c12hpAnsMalformedRel { // a CONNECT: remember what the peer offered
-				raw, _ := c12hpAnswerBytes(w, a)
-				h.noteOffered(c12hpParse(raw))
-			}
+			// remember every address the peer announces on this stream, whatever the message type
+			raw, _ := c12hpAnswerBytes(w, a)
+			h.noteOffered(c12hpParse(raw))
 			if !c12hpPlayRemote(w, remote, a) {
 				return
 			}
@@ -487,8 +488,22 @@ func c12hpScripts(constant bool) [][]c12hpStep {
 	return out
 }
 
+func c12hpConstant(sc []c12hpStep) bool {
+	for _, st := range sc {
+		if st.Answer != sc[0].Answer {
+			return false
+		}
+	}
+	return true
+}
+
 func c12hpInitCases(thorough bool, yield func(c c12hpInitCase) bool) {
 	scripts := c12hpScripts(!thorough)
+	all := c12hpScripts(false)
+	flavours := []bool{false}
+	if thorough {
+		flavours = []bool{false, true}
+	}
 	// main space: the full product
 	for ps := 0; ps < 32; ps++ {
 		for conns := 0; conns < c12hpNConns; conns++ {
@@ -496,8 +511,10 @@ func c12hpInitCases(thorough bool, yield func(c c12hpInitCase) bool) {
 				for _, sc := range scripts {
 					for ls := 0; ls < c12hpNListen; ls++ {
 						for f := 0; f < c12hpNFilters; f++ {
-							if !yield(c12hpInitCase{Space: "main", PsMask: ps, Conns: conns, DirectOK: dok, Script: sc, Listen: ls, Filter: f}) {
-								return
+							for _, fb := range flavours {
+								if !yield(c12hpInitCase{Space: "main", PsMask: ps, Conns: conns, DirectOK: dok, Script: sc, Listen: ls, Filter: f, FailBlocks: fb}) {
+									return
+								}
 							}
 						}
 					}
@@ -505,8 +522,30 @@ func c12hpInitCases(thorough bool, yield func(c c12hpInitCase) bool) {
 			}
 		}
 	}
+	if !thorough {
+		// quick tier: every SEQUENCE of remote behaviours too, for public listen addresses and no filter,
+		// and the blocking flavour of a failed dial with the constant scripts
+		for ps := 0; ps < 32; ps++ {
+			for conns := 0; conns < c12hpNConns; conns++ {
+				for _, dok := range []bool{false, true} {
+					for _, sc := range all {
+						if c12hpConstant(sc) {
+							continue // already in the main space
+						}
+						if !yield(c12hpInitCase{Space: "all-scripts", PsMask: ps, Conns: conns, DirectOK: dok, Script: sc, Listen: c12hpListenPublic, Filter: c12hpFilterNil}) {
+							return
+						}
+					}
+					for _, sc := range scripts {
+						if !yield(c12hpInitCase{Space: "blocking-dial", PsMask: ps, Conns: conns, DirectOK: dok, Script: sc, Listen: c12hpListenPublic, Filter: c12hpFilterNil, FailBlocks: true}) {
+							return
+						}
+					}
+				}
+			}
+		}
+	}
 	// the remote's own dial lands an inbound direct connection while our k-th punch fails
-	all := c12hpScripts(false)
 	for _, late := range []int{1, 2, 3} {
 		for _, ps := range []int{0, 1, 16, 31} {
 			for _, conns := range []int{c12hpConnsRelayedIn, c12hpConnsRelayedOut} {
@@ -561,12 +600,14 @@ func c12hpInitiator(t *testing.T) {
 	r.Bounds["remote_answers"] = strings.Join(c12hpAnsNames, " | ")
 	if thorough {
 		r.Bounds["remote_script"] = fmt.Sprintf("every sequence of answers over the attempts (%d scripts)", len(c12hpScripts(false)))
+		r.Bounds["failed_dial"] = "fails after 300 ms | blocks until the context deadline (full product)"
 	} else {
-		r.Bounds["remote_script"] = fmt.Sprintf("the same answer on every attempt (%d scripts); every sequence in the late-inbound-direct sub-space", len(c12hpScripts(true)))
+		r.Bounds["remote_script"] = fmt.Sprintf("main space: the same answer on every attempt (%d scripts); every sequence (%d scripts) for listen=public, filter=none and in the late-inbound-direct sub-space", len(c12hpScripts(true)), len(c12hpScripts(false)))
+		r.Bounds["failed_dial"] = "fails after 300 ms; blocks until the context deadline for listen=public, filter=none"
 	}
 	r.Bounds["listen_addrs"] = strings.Join(c12hpListenNames, " | ")
 	r.Bounds["addr_filter"] = strings.Join(c12hpFilterNames, " | ")
-	r.Bounds["sub_spaces"] = "main (full product) | late-inbound-direct (remote's dial lands during our failed attempt 1..3) | startup-poll (1,3,7 empty polls) | notify (Connected for 4 kinds of connection x 3 prior connection sets)"
+	r.Bounds["sub_spaces"] = "main (full product) | quick only: all-scripts, blocking-dial (listen=public, filter=none) | late-inbound-direct (remote's dial lands during our failed attempt 1..3) | startup-poll (1,3,7 empty polls) | notify (Connected for 4 kinds of connection x 3 prior connection sets)"
 	shard, nshards := vrep.Shard()
 	deadline := vrep.Deadline()
 	distinct := map[string]struct{}{}
